@@ -137,8 +137,13 @@ EffRemoveInter(M, ty, at, v) ==
 
 \* subgraph(nodes): the new molecule lists its atoms in the order of the ARGUMENT (kseq), copies bonds and the
 \* interactions that lie entirely inside; copy() is subgraph(all nodes in their own order)
-SubMol(M, kseq) ==
-  LET ks == RangeOf(kseq) IN
+\* keys listed more than once count once, at their first position
+RECURSIVE Dedup(_)
+Dedup(s) == IF s = <<>> THEN <<>>
+            ELSE LET r == Dedup(SubSeq(s, 1, Len(s) - 1)) IN IF s[Len(s)] \in RangeOf(r) THEN r ELSE Append(r, s[Len(s)])
+SubMol(M, kseq0) ==
+  LET kseq == Dedup(kseq0)
+      ks == RangeOf(kseq) IN
   [nodes |-> [i \in DOMAIN kseq |-> NodeOf(M, kseq[i])],
    edges |-> {e \in M.edges : e[1] \in ks /\ e[2] \in ks},
    inter |-> [t \in Types |-> SelectSeq(M.inter[t], LAMBDA x : RangeOf(x.atoms) \subseteq ks)],
